@@ -105,6 +105,9 @@ func (f *faultRWC) Write(p []byte) (int, error) {
 	f.mu.Lock()
 	i := f.nwrite
 	f.nwrite++
+	if f.hook != nil {
+		f.hook(i)
+	}
 	k, bad := f.shortAt[i]
 	f.mu.Unlock()
 	if bad {
